@@ -435,8 +435,11 @@ void checkAfterRebuild(RunState& rs, IWorld& w, const std::map<std::pair<int, lo
         for (size_t b = 0; b < c.localBytes; ++b) if (c.local[b]) z = false;
         if (!z) { ctx.addViolation("rebuild:cells", "not-zero", "expansion of cell L" + std::to_string(c.level) + " is not zero after rebuild"); break; }
     }
-    // (d) structure equals that of a freshly built tree
-    std::unique_ptr<IWorld> fresh = makeWorld(sc);
+    // (d) structure equals that of a freshly built tree with the same parameters (the automatic block size is estimated once,
+    //     at construction, and kept by rebuild(): the fresh tree is given the value the rebuilt tree uses)
+    Scenario freshSc = sc;
+    freshSc.blockSize = w.effectiveBlockSize();
+    std::unique_ptr<IWorld> fresh = makeWorld(freshSc);
     fresh->buildTree();
     const TreeView& f = fresh->view();
     if (f.bufs.size() != v.bufs.size()) ctx.addViolation("rebuild:structure", "groups", "rebuild produced " + std::to_string(v.bufs.size()) + " buffers, a fresh tree has " + std::to_string(f.bufs.size()));
@@ -494,7 +497,9 @@ void recipeRebuild(RunState& rs) {
             std::map<std::pair<int, long>, Bytes> freshRes;
             const bool predict = cellsZero && ctx.view->rhsElem == sizeof(unsigned long);
             if (predict) {
-                std::unique_ptr<IWorld> fresh = makeWorld(sc);
+                Scenario freshSc = sc;
+                freshSc.blockSize = w->effectiveBlockSize();
+                std::unique_ptr<IWorld> fresh = makeWorld(freshSc);
                 fresh->buildTree();
                 ctx.view = &fresh->view();
                 fresh->makeAlgo();
